@@ -134,7 +134,7 @@ def rule_b(ctx, E):
             r = set(amap.get(key, set())) if key else set()
             fresh = bool(r) and r <= {FRESH}
             ctx.ob(R, f.qname, f"in-place write `{what}` targets a list created in this function", fresh,
-                   f"`{norm(tgt)}` may be shared (aliases {sorted(r) or ['an object created elsewhere']}): images derived through metadata() hold the same list", st)
+                   f"`{norm(tgt)}` may be shared (aliases {sorted(r) or ['an object created elsewhere']}): images derived through metadata() hold the same list", st, evidence=True)
     ctx.stat("inplace_metadata_writes", n)
     md = m.func(IMG, "Image.metadata")
     am = AM(md)
@@ -239,7 +239,7 @@ def rule_d(ctx):
                 rejected = rejected or bool(TypeFolder().ev(g.test, {f.params[1]: Opaque(t, "scalar")}))
             except (Refuse, Raised) as e:
                 raise AnalysisError(f"Image.__mul__ guard outside the folding language: {e}")
-        ctx.ob(R, f.qname, f"documented scalar type `{t}` passes the guard", not rejected, f"guard `{norm(guards[0].test) if guards else ''}` raises for {t}", guards[0] if guards else f.node)
+        ctx.ob(R, f.qname, f"documented scalar type `{t}` passes the guard", not rejected, f"guard `{norm(guards[0].test) if guards else ''}` raises for {t}", guards[0] if guards else f.node, evidence=True)
     ops = {"__add__": ast.Add, "__sub__": ast.Sub, "__lt__": ast.Lt, "__gt__": ast.Gt, "__eq__": ast.Eq, "__le__": ast.LtE, "__ge__": ast.GtE}
     for name, op in ops.items():
         g = m.func(IMG, f"Image.{name}")
